@@ -4,13 +4,14 @@
 package e2
 
 import (
-	"encoding/json"
 	"bytes"
 	"context"
+	"encoding/json"
 	"errors"
 	"fmt"
 	"math/big"
 	"net/http"
+	"os"
 	"sort"
 	"strings"
 	"time"
@@ -66,6 +67,7 @@ type World struct {
 	inCheck bool
 	// ViaHTTP: the ledgers' controllers send their writes and reads through the real HTTP API (see httpctrl.go)
 	ViaHTTP        bool
+	Narrow         bool // GenPostingsRequest draws from three accounts, one asset and balance-sized amounts
 	V1Writes       bool // with ViaHTTP: writes use the v1 routes whenever v1 can express them
 	BigintAsString bool // with ViaHTTP: requests ask for amounts as strings (the API's own renderers)
 	router         http.Handler
@@ -87,7 +89,7 @@ func (w *World) V(code, format string, args ...any) {
 			}
 		}
 	}
-	if w.Focus == nil || w.Focus[code] {
+	if w.Focus == nil || w.Focus[code] || anyCode {
 		w.T.Fatalf("VIOLATION["+code+"]: "+format, args...)
 	}
 	if w.St != nil {
@@ -97,6 +99,10 @@ func (w *World) V(code, format string, args ...any) {
 		panic(skipCheck{})
 	}
 }
+
+// anyCode (VERIF_ANYCODE=1, a diagnosis aid, never set by the registered commands): report discrepancies outside
+// the focus of the running check as well.
+var anyCode = os.Getenv("VERIF_ANYCODE") != ""
 
 type skipCheck struct{}
 
@@ -272,6 +278,7 @@ type TxRequest struct {
 	Reference       string
 	Metadata        map[string]string
 	AccountMetadata map[string]map[string]string
+	ScriptAccMeta   map[string]map[string]string // what the script itself sets on accounts (from the generator), nil for postings
 	Force           bool
 	IK              string
 	DryRun          bool
@@ -465,7 +472,7 @@ func (w *World) CreateTx(l *LState, r TxRequest) TxOutcome {
 	if r.DryRun {
 		l.DryRuns++
 		l.Ops = append(l.Ops, desc+" => dry run ok")
-		if after := w.Env.Sim.CommitSeq(); l.M != nil && after != before && len(w.L) == 1 && l.stateInUse() {
+		if after := w.Env.Sim.CommitSeq(); l.M != nil && after != before && len(w.L) == 1 && l.stateInUse() && !w.ViaHTTP { // (a request through the API runs lookups of its own, each an implicit transaction)
 			w.V("C07", "a dry run committed a database transaction (commit seq %d -> %d)\nhistory:\n  %s", before, after, l.History())
 		}
 		return out
@@ -493,6 +500,42 @@ func (w *World) CreateTx(l *LState, r TxRequest) TxOutcome {
 	am := map[string]map[string]string{}
 	for a, m := range res.AccountMetadata {
 		am[a] = map[string]string(m.Copy())
+	}
+	if r.Script != "" && r.ScriptAccMeta != nil || len(r.Postings) > 0 {
+		// the account metadata of the write is known beforehand: what the script sets, then what the request carries
+		// (key by key, the request wins); the model follows that, not what the answer reports
+		want := map[string]map[string]string{}
+		for a, m := range r.ScriptAccMeta {
+			want[a] = map[string]string{}
+			for k, v := range m {
+				want[a][k] = v
+			}
+		}
+		for a, m := range r.AccountMetadata {
+			if want[a] == nil {
+				want[a] = map[string]string{}
+			}
+			for k, v := range m {
+				want[a][k] = v
+			}
+		}
+		for a, m := range want {
+			for k, v := range m {
+				got, ok := am[a][k]
+				_, fromRequest := r.AccountMetadata[a][k]
+				// values set by the script are compared on the machine runtime only (the generator knows its rendering)
+				if !ok || ((fromRequest || r.Runtime == "") && got != v) {
+					w.V("C17", "the write sets metadata %q=%q on account %s (script: %v, request: %v); the answer reports %v\nhistory:\n  %s\n  %s", k, v, a, r.ScriptAccMeta, r.AccountMetadata, am, l.History(), desc)
+				}
+			}
+		}
+		for a, m := range am {
+			for k := range m {
+				if _, ok := want[a][k]; !ok {
+					w.V("C17", "the answer reports metadata %q on account %s that neither the script nor the request sets: %v\nhistory:\n  %s\n  %s", k, a, am, l.History(), desc)
+				}
+			}
+		}
 	}
 	l.M.AddTx(mtx, am, nil)
 	if r.Reference != "" {
@@ -624,10 +667,10 @@ func (w *World) Revert(l *LState, r RevertRequest) TxOutcome {
 		w.V("C15", "revert postings are not the original's reversed and swapped\n  original: %v\n  revert:   %s\nhistory:\n  %s", orig.Postings, postingsStr(rt.Postings), l.History())
 	}
 	if rt.Metadata[ledger.RevertMetadataSpecKey()] != fmt.Sprint(r.ID) {
-		w.V("C15", "revert transaction lacks the revert mark: %v", rt.Metadata)
+		w.V("C15", "revert of transaction %d carries the revert mark %q (request metadata %v): %v", r.ID, rt.Metadata[ledger.RevertMetadataSpecKey()], r.Metadata, rt.Metadata)
 	}
 	for k, v := range r.Metadata {
-		if rt.Metadata[k] != v {
+		if k != ledger.RevertMetadataSpecKey() && rt.Metadata[k] != v {
 			w.V("C15", "revert transaction lost request metadata %q", k)
 		}
 	}
@@ -801,10 +844,26 @@ func (w *World) GenTimestamp(t *rapid.T, l *LState) time.Time {
 	return time.Time{}
 }
 
+var narrowAccounts = []string{"a", "bank", "u:1"}
+
 func (w *World) GenPostingsRequest(t *rapid.T, l *LState, maxPostings int) TxRequest {
 	n := rapid.IntRange(1, maxPostings).Draw(t, "nPostings")
+	if w.Narrow && n < 2 && maxPostings >= 2 && rapid.IntRange(0, 3).Draw(t, "single") != 0 {
+		n = 2
+	}
 	ps := make(ledger.Postings, 0, n)
 	for i := 0; i < n; i++ {
+		if w.Narrow {
+			// few accounts, one asset, amounts of the size of the balances: requests draw on several bounded sources
+			// at once and their outcome hinges on the exact balance of each
+			src := rapid.SampledFrom(narrowAccounts).Draw(t, "src")
+			if rapid.IntRange(0, 5).Draw(t, "fromWorld") == 0 {
+				src = "world"
+			}
+			dst := rapid.SampledFrom(append([]string{"sink"}, narrowAccounts...)).Draw(t, "dst")
+			ps = append(ps, ledger.Posting{Source: src, Destination: dst, Asset: "USD/2", Amount: big.NewInt(int64(rapid.IntRange(0, 40).Draw(t, "amount")))})
+			continue
+		}
 		src := gen.Account().Draw(t, "src")
 		if rapid.IntRange(0, 2).Draw(t, "fromWorld") == 0 {
 			src = "world"
